@@ -100,6 +100,34 @@ def run_build(c, obj, kw):
     return guarded(f)
 
 
+_CC = {}
+
+
+def compiled_of(c):
+    if id(c) not in _CC:
+        if len(_CC) > 3000:
+            _CC.clear()
+        try:
+            _CC[id(c)] = (c, c.compile())
+        except Exception as e:
+            _CC[id(c)] = (c, None)
+    return _CC[id(c)][1]
+
+
+def run_cparse(c, kw, data, start=0):
+    cc = compiled_of(c)
+    if cc is None:
+        raise Unsupported('compile() does not accept the construct')
+    return run_parse(cc, kw, data, start)
+
+
+def run_cbuild(c, obj, kw):
+    cc = compiled_of(c)
+    if cc is None:
+        raise Unsupported('compile() does not accept the construct')
+    return run_build(cc, obj, kw)
+
+
 def run_lazy(c, kw, data, start, history):
     """parse_stream on a LazyStruct / LazyArray, then the accesses of the history by member index:
     position after the parse, then (value, tell()) after each access; the first access that raises ends it"""
